@@ -464,6 +464,33 @@ static void gen_key_seeds(void)
 		EMIT("sm9_sign_key_enc", 23, 0, sm9_sign_key_info_encrypt_to_der(&sk, FZ_PASS, &p, &len));
 		EMIT("sm9_enc_msk_enc", 24, 0, sm9_enc_master_key_info_encrypt_to_der(&emk, FZ_PASS, &p, &len));
 		EMIT("sm9_enc_key_enc", 25, 0, sm9_enc_key_info_encrypt_to_der(&ek, FZ_PASS, &p, &len));
+		{	/* plaintext PrivateKeyInfo of each key type (sel 28): recovered from the library's own encrypted form */
+			int t;
+			fz_entropy_reset(4104);
+			for (t = 0; t < 5; t++) {
+				const uint8_t *salt, *iv, *enced, *cp;
+				size_t saltlen, ivlen, encedlen, l2, plainlen = 0;
+				int iter, keylen, prf, cipher;
+				uint8_t k[16], plain[1024];
+				SM4_KEY sm4;
+				char name[32];
+				p = buf; len = 0;
+				switch (t) {
+				case 0: CHECK(sm2_private_key_info_encrypt_to_der(&key, FZ_PASS, &p, &len)); break;
+				case 1: CHECK(sm9_sign_master_key_info_encrypt_to_der(&smk, FZ_PASS, &p, &len)); break;
+				case 2: CHECK(sm9_sign_key_info_encrypt_to_der(&sk, FZ_PASS, &p, &len)); break;
+				case 3: CHECK(sm9_enc_master_key_info_encrypt_to_der(&emk, FZ_PASS, &p, &len)); break;
+				case 4: CHECK(sm9_enc_key_info_encrypt_to_der(&ek, FZ_PASS, &p, &len)); break;
+				}
+				cp = buf; l2 = len;
+				CHECK(pkcs8_enced_private_key_info_from_der(&salt, &saltlen, &iter, &keylen, &prf, &cipher, &iv, &ivlen, &enced, &encedlen, &cp, &l2));
+				CHECK(sm3_pbkdf2(FZ_PASS, strlen(FZ_PASS), salt, saltlen, iter, sizeof(k), k));
+				sm4_set_decrypt_key(&sm4, k);
+				CHECK(sm4_cbc_padding_decrypt(&sm4, iv, enced, encedlen, plain, &plainlen));
+				snprintf(name, sizeof(name), "plain_info_%d", t);
+				seed2("fz_keys", name, 28, t, plain, plainlen);
+			}
+		}
 		fz_entropy_reset(4102);
 		CHECK(sm9_sign_init(&sctx));
 		CHECK(sm9_sign_update(&sctx, (const uint8_t *)"message", 7));
